@@ -42,6 +42,27 @@ def settle(v):
     return v
 
 
+def concrete_comparison(ctx, cls, ver, func, a, b):
+    """the comparison evaluated from the statements of the method (sa.miniexec; properties and helpers through the class chain,
+    string methods and arithmetic with their real meaning) on two version objects: a truth value, or None when the method leaves
+    the evaluable subset.  Used where the abstract run does not fold the comparison to a constant."""
+    from ..miniexec import EnumVal, Evaluator, Native, Raised, Unsupported, class_call_hook
+
+    class Version(Native):
+        _repo_class = cls
+        _isa = {k.name for k in cls.mro if hasattr(k, 'name')}
+
+        def __init__(self, name):
+            self.version = EnumVal.of(ver, name)
+    hook = class_call_hook(cls, None, ctx.model)
+    params = [p.arg for p in func.node.args.args]
+    try:
+        got = Evaluator({params[0]: Version(a), params[1]: Version(b)}, hook, hook.name_hook_for(func.module, None)).function(func.node)
+    except (Unsupported, Raised, AttributeError, TypeError, ValueError, KeyError, IndexError):
+        return None
+    return got if isinstance(got, bool) else None
+
+
 def check(ctx, report):
     model, it = ctx.model, ctx.interp
     cls = model.cls('TlsProtocolVersion')
@@ -74,6 +95,10 @@ def check(ctx, report):
             e = it.call_function(eq, objs[a.name], [objs[b.name]], {}, fr)
             report.count('C17.R1', 1)
             r, e = settle(r), settle(e)
+            if not isinstance(r, bool):
+                r = concrete_comparison(ctx, cls, ver, lt, a.name, b.name)
+            if not isinstance(e, bool):
+                e = concrete_comparison(ctx, cls, ver, eq, a.name, b.name)
             if not isinstance(r, bool) or not isinstance(e, bool):
                 report.error('C17.R1: comparator not foldable for (%s, %s): %s / %s' % (a.name, b.name, show(r), show(e)))
                 return
